@@ -41,7 +41,18 @@ SIGMA = ['a', 'b', 'A', 'B', 'z', 'é', 'É', '中', '0', '1', '2', '٣', '.', '
 assert len(set(SIGMA)) == 32
 DL = '/vdl/DL'          # symbolic runs; no character of it is in Σ, so a peer cannot name it
 STRATEGIES = {'D': NM.DefaultNamingStrategy, 'K': NM.KeepDirectoryStrategy, 'N': NM.NumberDuplicateStrategy}
-NO_PATH = (IndexError, ValueError, KeyError, OSError)   # "no path chosen": observed, not a violation
+_PROXY_NAMES = ('SStr', 'SInt', 'SBool', 'SReal', 'SMatch', 'SPattern', 'ReShim', 'OsShim', 'PathShim', 'FnmatchShim', 'BitVecRef', 'BoolRef')
+
+
+def code_raised(e: BaseException) -> bool:
+    """an exception of the code under test means "no path chosen" (observed, not a violation).  Engine errors
+    and the TypeError / AttributeError of a proxy value that reached C code are harness errors instead."""
+    if isinstance(e, symex.HarnessError) or not isinstance(e, Exception):
+        return False
+    if isinstance(e, (TypeError, AttributeError, NotImplementedError)) and any(n in str(e) for n in _PROXY_NAMES):
+        return False
+    return True
+
 _MISSING = object()
 
 
@@ -196,13 +207,18 @@ class Env:
 
     def __enter__(self):
         if self.c.symbolic:
+            import fnmatch as real_fnmatch
+            import os as real_os
             shim_re = sstr.ReShim()
             shim_os = sstr.OsShim(self.be.fs)
-            self._set(UT, 're', shim_re)
-            self._set(NM, 're', shim_re)
-            self._set(NM, 'os', shim_os)
+            shims = {'re': (re, shim_re), 'os': (real_os, shim_os), 'fnmatch': (real_fnmatch, sstr.FnmatchShim(shim_re))}
+            # whichever of these modules a module under test has imported is replaced by its stand-in
+            for mod in (UT, NM, TMm, SM):
+                for name, (real, shim) in shims.items():
+                    if mod.__dict__.get(name) is real:
+                        self._set(mod, name, shim)
             self._set(NM, 'int', sstr.sym_int)
-            self._set(TMm, 'os', shim_os)
+            self._numfmt = sstr.numeric_formatting().__enter__()
         if self.c.symbolic or self.suspending:
             self._set(SM, 'asyncos', _AsyncOs(self))
             self._set(TMm, 'asyncos', _AsyncOs(self))
@@ -210,6 +226,9 @@ class Env:
         return self
 
     def __exit__(self, *a):
+        if getattr(self, '_numfmt', None) is not None:
+            self._numfmt.__exit__()
+            self._numfmt = None
         for mod, name, old in reversed(self.saved):
             if old is _MISSING:
                 mod.__dict__.pop(name, None)
@@ -406,7 +425,9 @@ def h_name(c, chain='DN', shape='xxx', dirspec=None):
         with Env(c, be):
             try:
                 loop.run_until_complete(tm._prepare_download_path(transfer))
-            except NO_PATH as e:
+            except Exception as e:
+                if not code_raised(e):
+                    raise
                 if not log:
                     c.reach('no_path:' + type(e).__name__)
                     c.note('no path chosen', repr(remote), repr(e))
@@ -444,7 +465,7 @@ def h_concurrent(c, chain='DN', shapes=('c', 'c'), dirspec=None, staggered=False
     """every download runs the real TransferManager._download_file (path choice, directory creation, state
     change, open(..., 'ab')) on the virtual loop; each file-system call is a suspension point and the order in
     which ready tasks continue is chosen (all interleavings until every download has chosen its path).
-    staggered: the second download only starts after the first one is receiving (file already created)."""
+    staggered: each download only starts after the previous one is receiving (its file has been created)."""
     sstr.use_alphabet(SIGMA)
     be = ModelDir() if c.symbolic else DiskDir()
     loop = None
@@ -471,11 +492,9 @@ def h_concurrent(c, chain='DN', shapes=('c', 'c'), dirspec=None, staggered=False
         with env:
             tasks = []
             for i, t in enumerate(transfers):
-                if staggered and i == 1:
-                    for _ in range(200):
-                        if env.opened:
-                            break
-                        if not loop.step():
+                if staggered and i >= 1:
+                    for _ in range(400):       # the previous download is receiving (its file exists) before this one starts
+                        if len(env.opened) >= i or not loop.step():
                             break
                 tasks.append(loop.spawn(tm._download_file(t, _Conn())))
             loop.run_until_quiet(max_time=10)
@@ -483,7 +502,7 @@ def h_concurrent(c, chain='DN', shapes=('c', 'c'), dirspec=None, staggered=False
             if not task.done():
                 raise symex.HarnessError('download task did not finish')
             if task.exception() is not None:
-                if isinstance(task.exception(), NO_PATH):
+                if code_raised(task.exception()):
                     c.reach('no_path:' + type(task.exception()).__name__)
                     return
                 raise task.exception()
@@ -506,6 +525,52 @@ def h_concurrent(c, chain='DN', shapes=('c', 'c'), dirspec=None, staggered=False
         if loop is not None:
             loop.cleanup()
         be.cleanup()
+
+
+# ------------------------------------------------------------------------------
+# H0: translator validation on symbolic paths.  For every path of the stand-ins over a fully symbolic
+# string, a witness of the path condition is run through CPython's re / posixpath / int and must agree.
+# ------------------------------------------------------------------------------
+
+def h_selfcheck(c, n=3):
+    import types
+    sstr.use_alphabet(SIGMA)
+    s = sstr.fresh_str(c, 's', n)
+    t = sstr.fresh_str(c, 't', 2)
+    u = sstr.fresh_str(c, 'u', 2) + ' (' + sstr.fresh_str(c, 'v', 2) + ')' + sstr.fresh_str(c, 'w', 1)
+    shim = sstr.ReShim()
+    my_path = types.SimpleNamespace(splitext=sstr.p_splitext, split=sstr.p_split, join=sstr.p_join)
+
+    def run(rx, path_mod, to_int, string, stem, numbered):
+        num = rx.match(rx.escape(stem) + NM.NumberDuplicateStrategy.PATTERN, numbered)
+        drive = rx.match(r'[a-zA-Z]{1}:', string)
+        out = {'split': rx.split(UT.PATH_SEPERATOR_PATTERN, string), 'drive': None if drive is None else drive.span(),
+               'num': None if num is None else (num.span(), num.group(1), to_int(num.group(1))),
+               'splitext': path_mod.splitext(string), 'psplit': path_mod.split(string), 'join': path_mod.join('/d', string),
+               'alias': bool(string.startswith('@@')), 'rfind': string.rfind('.'), 'lower': string.lower(),
+               'fmt': f'{string} ({len(string)})'}
+        return out
+    if not c.symbolic:
+        c.reach('selfcheck')
+        c.check(run(shim, my_path, sstr.sym_int, s, t, u) == run(re, posixpath, int, s, t, u), 'shim_agrees_with_cpython', info=repr(s))
+        return
+    mine = run(shim, my_path, lambda x: int(sstr.sym_int(x)), s, t, u)
+    c.witness('selfcheck')
+    model = c._model
+    if model is None:
+        raise symex.HarnessError('no model for a feasible path')
+
+    def conc(v):
+        if isinstance(v, (sstr.SStr, str)):
+            return sstr.concretize(v, model)
+        if isinstance(v, (list, tuple)):
+            return type(v)(conc(x) for x in v)
+        return v
+    s0, t0, u0 = conc(s), conc(t), conc(u)
+    real = run(re, posixpath, int, s0, t0, u0)
+    c.reach('selfcheck')
+    c.check({k: conc(v) for k, v in mine.items()} == real, 'shim_agrees_with_cpython', info=repr((s0, t0, u0)))
+    c.note(s0, u0, real)
 
 
 # ------------------------------------------------------------------------------
@@ -536,7 +601,8 @@ META = {
               'aioslsk.naming.int -> engine.sstr.sym_int (decimal digit strings -> z3 Int)',
               'aioslsk.shares.manager.asyncos, aioslsk.transfer.manager.asyncos / aiofiles -> the same directory tree behind one suspension point per call '
               '(replay of the concurrent harness: same front end over the real directory)',
-              'f-strings / str(): symbolic characters travel through CPython string formatting as private-use placeholder code points and are mapped back by the shims',
+              'f-strings / str(): symbolic characters travel through CPython string formatting as private-use placeholder code points and are mapped back by the shims; '
+              'a symbolic integer formatted into a string is concretised by forking (sstr.numeric_formatting, a run-time replacement of symex.SInt.__format__/__str__)',
               'TransferManager built with object.__new__ and only _shares_manager; peer connection -> 3-method fake (set_connection_state, receive_file, disconnect); '
               'asyncio loop -> engine.vloop.VLoop'],
     'data_variables': ['every character of the remote path (5-bit index into Σ; Σ has both separators, ".", "@", ":", blank, brackets, regex/glob meta characters, '
@@ -562,7 +628,46 @@ META = {
 def prelude(tier):
     notes = sstr.selftest(alphabet='ab.(/\\ 1)A:*' if tier == 'thorough' else 'a.(/\\ 1)', maxlen=3)
     notes += _validate_fs_model()
+    if tier == 'thorough':
+        notes += _second_engine()
     return notes
+
+
+def _second_engine(per_condition_timeout=10):
+    """CrossHair on the pure naming functions (spec/c09_crosshair.py).  Second opinion only: recorded in the
+    evidence, never changes the verdict (a counterexample it prints is re-evaluated concretely here)."""
+    import subprocess
+    import sys
+    spec = os.path.join(os.path.dirname(os.path.dirname(os.path.abspath(__file__))), 'spec', 'c09_crosshair.py')
+    exe = os.path.join(os.path.dirname(sys.executable), 'crosshair')
+    if not os.path.exists(exe):
+        return ['second engine: crosshair is not installed, skipped']
+    try:
+        r = subprocess.run([exe, 'check', '--report_all', '--per_condition_timeout', str(per_condition_timeout), spec],
+                           capture_output=True, text=True, timeout=20 * per_condition_timeout)
+    except subprocess.TimeoutExpired:
+        return ['second engine: crosshair timed out, no opinion']
+    notes = []
+    import importlib.util
+    sp = importlib.util.spec_from_file_location('c09_crosshair', spec)
+    mod = importlib.util.module_from_spec(sp)
+    sp.loader.exec_module(mod)
+    for line in (r.stdout + r.stderr).splitlines():
+        m = re.search(r':(\d+): (error|info): (.*)$', line)
+        if not m:
+            continue
+        text = m.group(3)
+        call = re.search(r"when calling (\w+)\((.*)\) \(which returns", text)
+        if call:
+            import ast
+            try:
+                arg = ast.literal_eval(call.group(2))
+                again = getattr(mod, call.group(1))(arg)
+                text += f' -- re-evaluated concretely: returns {again}' + (' (reproduced)' if again is False else ' (NOT reproduced)')
+            except Exception as e:  # noqa
+                text += f' -- could not be re-evaluated: {e!r}'
+        notes.append(f'second engine (CrossHair) spec/c09_crosshair.py:{m.group(1)}: {text}')
+    return notes or ['second engine: crosshair printed nothing']
 
 
 def _validate_fs_model():
@@ -627,8 +732,10 @@ def jobs(tier):
     out = []
 
     def add(harness, fn, requires=('chosen',), **params):
-        out.append({'harness': harness, 'fn': fn, 'params': params, 'requires': list(requires)})
+        out.append({'harness': harness, 'fn': fn, 'params': params, 'requires': list(requires),
+                    'timeout_s': 120 if q else 900})
 
+    add('selfcheck', h_selfcheck, requires=['selfcheck'], n=2 if q else 3)
     # (a) containment / regular name: free-form remote paths (every character any of Σ), every chain
     for chain in ALL_CHAINS:
         for n in range(0, (5 if q else 8) + 1):
@@ -652,11 +759,15 @@ def jobs(tier):
             for sp in ([['S', 'N1'], ['S', 'N1', 'N1']] if q else specs):
                 add('name', h_name, chain=chain, shape=sh, dirspec={'root': sp})
     if not q:
-        for sh in ['c', 'cc', 'ccc']:
-            for ds in [{'root': ['S', 'N1', 'N1', 'N1']}, {'root': ['S', 'N1', 'N1', 'N1'], 'order': 'rev'}, {'root': ['S', 'N2', 'N1', 'N1+1']},
-                       {'root': ['S', 'N1', 'N2', 'N2'], 'order': 'rev'}, {'root': ['S', 'F1', 'N1']}, {'root': ['S', 'N1', 'N1+1', 'N1+1']},
-                       {'root': ['S', 'N1', 'N1'], 'order': 'rev'}, {'root': ['S', 'N1', 'N2'], 'order': 'rev'}]:
+        four = [({'root': ['S', 'N1', 'N1', 'N1']}, 'ccc'), ({'root': ['S', 'N1', 'N1', 'N1'], 'order': 'rev'}, 'ccc'),
+                ({'root': ['S', 'N2', 'N1', 'N1+1']}, 'cc'), ({'root': ['S', 'N1', 'N2', 'N2'], 'order': 'rev'}, 'c'),
+                ({'root': ['S', 'F1', 'N1']}, 'ccc'), ({'root': ['S', 'N1', 'N1+1', 'N1+1']}, 'ccc'), ({'root': ['S', 'N1', 'N1+1', 'N1']}, 'cc'),
+                ({'root': ['S', 'N1', 'N1'], 'order': 'rev'}, 'ccc'), ({'root': ['S', 'N1', 'N2'], 'order': 'rev'}, 'ccc')]
+        for ds, longest in four:
+            for sh in ['c', 'cc', 'ccc'][:len(longest)]:
                 add('name', h_name, chain='DN', shape=sh, dirspec=ds)
+    else:
+        add('name', h_name, chain='DN', shape='c', dirspec={'root': ['S', 'N1', 'N1+1', 'N1']})
     # with a kept directory: contents in the download directory and in a sub-directory whose name is symbolic too
     for chain in DUP_CHAINS:
         for sh in (['cscc'] if q else ['cscc', 'ccsc', 'cscsccc']):
@@ -666,7 +777,7 @@ def jobs(tier):
     for chain in ['DKN', 'KDN']:
         for sh in (['cscc'] if q else ['cscc', 'ccsccc']):
             add('name', h_name, chain=chain, shape=sh, dirspec={'root': [], 'sub': ['S', 'N1', 'N1']})
-            if not q:
+            if not q and sh == 'cscc':
                 add('name', h_name, chain=chain, shape=sh, dirspec={'root': ['S', 'N1', 'N1'], 'sub': ['S', 'N1', 'N1']})
                 add('name', h_name, chain=chain, shape=sh, dirspec={'root': ['N1'], 'sub': ['S', 'N2', 'N1+1']})
     # free-form remote paths against an existing equally long name
